@@ -48,6 +48,9 @@ let values_of rk vals =
 (* opts token: - | n | t | f, optionally followed by a sample count *)
 let opts_of (s : string) =
   if s = "-" then None else
+    (* an `e` after the letter says `threads = []` (present but empty): the model does not model thread counts,
+       an absent or empty list means one run per case on one thread *)
+    let s = if String.length s > 1 && s.[1] = 'e' then String.make 1 s.[0] ^ String.sub s 2 (String.length s - 2) else s in
     let sc = if String.length s > 1 then Some (n_of_string (String.sub s 1 (String.length s - 1))) else None in
     Some { o_ignore = (match s.[0] with 't' -> Some true | 'f' -> Some false | _ -> None); o_sample_count = sc }
 
@@ -145,7 +148,7 @@ let parse_case (line : string) =
                   | _ -> failwith "generic entry") (String.split_on_char ';' row))
               (String.split_on_char '/' rows)) in
         groups := { g_id = id; g_meta = meta_of f; g_generic = generic } :: !groups
-      | "X" | "P" | "F" | "M" | "N" | "E" -> ()
+      | "X" | "P" | "F" | "M" | "N" | "E" | "O" -> ()
       | x -> failwith ("bad item " ^ x)
     end) (String.split_on_char ' ' line);
   let toks = String.split_on_char ' ' line in
@@ -247,7 +250,14 @@ let model_run (line : string) : string =
           String.concat ";" (List.sort compare (List.map (fun l -> enc (ts l)) (lines acts))) ^ "!" ^ status p
         end else canon_terse (run cfg0 ListTerse)
       | 'D' -> dump_of benches groups
+      | 'O' ->
+        (* the options as written, as the generator recorded them in the case *)
+        (match List.find_opt (fun t -> String.length t > 1 && t.[0] = 'O' && t.[1] = ',') (String.split_on_char ' ' line) with
+         | Some t -> String.sub t 2 (String.length t - 2)
+         | None -> "no-options-item")
       | 'K' -> ""   (* marker: the case has a module / generic function name clash *)
+      | 'm' -> canon_tree (run cfg0 Test) true made
+      | 'n' -> canon_terse (run cfg0 ListTerse)
       | 'a' | 'b' | 'c' | 'd' | 'f' | 'g' | 'h' | 'j' | 'k' ->
         (* (list, test, bench, terse accepted) as the harness passes them for this letter *)
         let (l, t, b, terse) = match act with
@@ -341,7 +351,7 @@ let c14_sb (line : string) : string =
   let secs = sections_of impl in
   let fail = ref [] in
   let bad s = fail := s :: !fail in
-  let terse = ref None and ran = ref None and terse_more = ref [] in
+  let terse = ref None and ran = ref None and terse_more = ref [] and ran_more = ref [] in
   List.iter (fun (act, body) ->
     match act with
     | 'j' ->
@@ -349,7 +359,7 @@ let c14_sb (line : string) : string =
       (match split_bang body with
        | _ :: log :: _ -> if items_of log <> [] then bad "rejected-command-line-invoked-something"
        | _ -> ())
-    | 'c' | 'd' ->
+    | 'c' | 'd' | 'n' ->
       let (ls, log, rest) = read_terse body in
       if rest <> [] then bad ("terse-status:" ^ String.concat "," rest);
       if not (c14_quiet_sb (n_of_small (List.length log))) then bad "terse-listing-with-bench-flag-invoked-something";
@@ -364,7 +374,7 @@ let c14_sb (line : string) : string =
         if List.sort compare ls <> exp_lines then bad "terse-listing-differs-from-the-program"
       end;
       terse := Some ls
-    | 'R' | 'Q' | 'f' | 'g' | 'h' ->
+    | 'R' | 'Q' | 'f' | 'g' | 'h' | 'm' ->
       let (items, _, rest) = read_tree body in
       if rest <> [] then bad ("run-status:" ^ String.concat "," rest);
       if has_mismatch items then bad "run-leaves-and-calls-differ";
@@ -390,6 +400,7 @@ let c14_sb (line : string) : string =
                ^ " unexpected=" ^ String.concat "+" (List.filter (fun x -> not (List.mem x expected)) got))
       end;
       if act = 'R' then ran := Some (executed_paths items)
+      else if act = 'm' then ran_more := executed_paths items :: !ran_more
     | 'L' | 'A' | 'a' | 'b' | 'k' ->
       let (_, log, rest) = read_tree body in
       if rest <> [] then bad ("list-status:" ^ String.concat "," rest);
@@ -419,7 +430,12 @@ let c14_sb (line : string) : string =
   (match !ran with
    | Some r ->
      List.iter (fun t -> if not (c14_terse_sb (List.map st t) (List.map st r)) then
-                   bad "terse-listing-with-bench-flag-differs-from-what-the-run-executes") !terse_more
+                   bad "terse-listing-variant-differs-from-what-the-run-executes") !terse_more
+   | None -> ());
+  (match !terse with
+   | Some t ->
+     List.iter (fun r -> if not (c14_terse_sb (List.map st t) (List.map st r)) then
+                   bad "run-with-empty-threads-list-differs-from-the-terse-listing") !ran_more
    | None -> ());
   if !fail = [] then "true" else "false " ^ String.concat " " (List.rev !fail)
 
@@ -464,7 +480,18 @@ let c12_sb (line : string) : string =
         let missing = List.filter (fun x -> not (List.mem x got)) exp and extra = List.filter (fun x -> not (List.mem x exp)) got in
         bad ("listed-benchmarks-differ-from-the-program missing=" ^ String.concat "+" missing ^ " unexpected=" ^ String.concat "+" extra)
       end
-    | 'D' | 'K' | 'E' -> ()
+    | 'O' ->
+      (* "options as written": what the registry holds for every entry is what the program says *)
+      let expected = match List.find_opt (fun t -> String.length t > 1 && t.[0] = 'O' && t.[1] = ',') (String.split_on_char ' ' case) with
+        | Some t -> items_of (dec (String.sub t 2 (String.length t - 2))) | None -> [] in
+      let got = items_of (dec body) in
+      if got <> expected then
+        bad ("registered-options-differ-from-the-written-ones missing=" ^ String.concat "+" (List.filter (fun x -> not (List.mem x got)) expected)
+             ^ " unexpected=" ^ String.concat "+" (List.filter (fun x -> not (List.mem x expected)) got))
+    | 'D' ->
+      (* the registry dump (module path, names, location, options present, shape) is what the macro model expands the program to *)
+      if is_real case && body <> dump_of benches groups then bad "registry-dump-differs-from-the-program"
+    | 'K' | 'E' -> ()
     | _ -> bad "unreadable-output") secs;
   if !fail = [] then "true" else "false " ^ String.concat " " (List.rev !fail)
 
@@ -512,6 +539,8 @@ let c17_sb (line : string) : string =
 let dispatch mode line =
   match mode with
   | "c14" | "c12" | "c17" | "run" -> model_run line
+  | "push" -> "ok"   (* Model/ListPush.v: every interleaving of overlapping pushes links each node exactly once *)
+  | "push.sb" -> let (_, impl) = split_sb line in if impl = "ok" then "true" else "false entry-list-lost-or-duplicated-nodes:" ^ impl
   | "c14.sb" -> c14_sb line
   | "c12.sb" -> c12_sb line
   | "c17.sb" -> c17_sb line
